@@ -218,12 +218,15 @@ func c09Modes(c *enumx.Ctx) {
 		recs := []recDesc{syscallRec(t, 2, ""), {"CWD", "cwd=\"/c\""}, p}
 		desc := fmt.Sprintf("open event whose PATH has mode=%#o", mode)
 		c.Begin(func() string { return desc + ": " + p.line() })
-		c.Try("C09", func() {
+		c.Try(tryProp(), func() {
 			msgs, ok := parseAll(c, recs)
 			if !ok {
 				return
 			}
-			ev, err := aucoalesce.CoalesceMessages(msgs)
+			ev, err := coalesce(c, msgs)
+			if oracleC15 {
+				return
+			}
 			if err != nil || ev == nil {
 				c.Report("C09 coalesce-error", fmt.Sprintf("%s: %v", desc, err), nil)
 				return
@@ -312,12 +315,15 @@ func c09Groups(c *enumx.Ctx) {
 							}
 							desc := fmt.Sprintf("group [%s] syscall=%d SYSCALL at %d collide=%q eoe=%v saddr=%s", strings.Join(order, ","), nr, pos, collide, eoe, sa)
 							c.Begin(func() string { return desc })
-							c.Try("C09", func() {
+							c.Try(tryProp(), func() {
 								msgs, ok := parseAll(c, rs)
 								if !ok {
 									return
 								}
-								ev, err := aucoalesce.CoalesceMessages(msgs)
+								ev, err := coalesce(c, msgs)
+								if oracleC15 {
+									return
+								}
 								if len(rs) == 1 || (len(rs) >= 1 && err == nil && ev != nil) {
 									// fine
 								}
@@ -395,12 +401,15 @@ func c09Singles(c *enumx.Ctx) {
 		}
 		desc := "single " + name + " record"
 		c.Begin(func() string { return r.line() })
-		c.Try("C09", func() {
+		c.Try(tryProp(), func() {
 			msgs, ok := parseAll(c, []recDesc{r})
 			if !ok {
 				return
 			}
-			ev, err := aucoalesce.CoalesceMessages(msgs)
+			ev, err := coalesce(c, msgs)
+			if oracleC15 {
+				return
+			}
 			if err != nil || ev == nil {
 				c.Report("C09 single-record-error", fmt.Sprintf("%s: (%v, %v)", desc, ev, err), nil)
 				return
@@ -411,6 +420,36 @@ func c09Singles(c *enumx.Ctx) {
 				c.Nontrivial()
 			}
 		})
+	}
+	// error side: for EVERY record type, a two-record group of that type and a CWD record (either order) has no
+	// SYSCALL record and is an error, never a partial event
+	for typ := 0; typ < 65536; typ++ {
+		if typ == 1300 || typ == 1320 || !c.Mine() {
+			continue
+		}
+		name := auparse.AuditMessageType(typ).String()
+		tt := &tagger{}
+		x := recDesc{name, "pid=" + tt.v() + " uid=" + tt.v() + " op=" + tt.v()}
+		cw := recDesc{"CWD", "cwd=\"/x\""}
+		for oi, rs := range [][]recDesc{{x, cw}, {cw, x}, {x, x}} {
+			desc := fmt.Sprintf("group of a %s record and a CWD record (arrangement %d), no SYSCALL", name, oi)
+			c.Begin(func() string { return desc })
+			c.Try(tryProp(), func() {
+				msgs, ok := parseAll(c, rs)
+				if !ok {
+					return
+				}
+				ev, err := coalesce(c, msgs)
+				if oracleC15 {
+					return
+				}
+				if err == nil || ev != nil {
+					c.Report("C09 partial-event-instead-of-error", fmt.Sprintf("%s: CoalesceMessages = (%v, %v), want (nil, error)", desc, ev != nil, err), nil)
+					return
+				}
+				c.Nontrivial()
+			})
+		}
 	}
 	// error side
 	t := &tagger{}
@@ -423,7 +462,7 @@ func c09Singles(c *enumx.Ctx) {
 		}
 		desc := fmt.Sprintf("error-side group #%d (%d records, no SYSCALL)", i, len(rs))
 		c.Begin(func() string { return desc })
-		c.Try("C09", func() {
+		c.Try(tryProp(), func() {
 			msgs, ok := parseAll(c, rs)
 			if !ok {
 				return
@@ -431,7 +470,10 @@ func c09Singles(c *enumx.Ctx) {
 			if rs == nil {
 				msgs = nil
 			}
-			ev, err := aucoalesce.CoalesceMessages(msgs)
+			ev, err := coalesce(c, msgs)
+			if oracleC15 {
+				return
+			}
 			if err == nil || ev != nil {
 				c.Report("C09 partial-event-instead-of-error", fmt.Sprintf("%s: CoalesceMessages = (%v, %v), want (nil, error)", desc, ev, err), nil)
 				return
@@ -470,12 +512,15 @@ func c09Repeats(c *enumx.Ctx) {
 				}
 				desc := fmt.Sprintf("SYSCALL(kill) with %d %s records (aux first: %v)", copies, name, first)
 				c.Begin(func() string { return desc })
-				c.Try("C09", func() {
+				c.Try(tryProp(), func() {
 					msgs, ok := parseAll(c, rs)
 					if !ok {
 						return
 					}
-					ev, err := aucoalesce.CoalesceMessages(msgs)
+					ev, err := coalesce(c, msgs)
+					if oracleC15 {
+						return
+					}
 					if err != nil || ev == nil {
 						c.Report("C09 coalesce-error", fmt.Sprintf("%s: (%v, %v)", desc, ev, err), nil)
 						return
@@ -505,12 +550,15 @@ func c09Names(c *enumx.Ctx) {
 				}
 				t := &tagger{}
 				nm := "/p/" + t.v() + strings.ReplaceAll(shape, "%s", r)
+				if nr == 87 {
+					nm = nm[1:] // a RELATIVE name (resolved against the CWD record by whoever wants to)
+				}
 				ino := "ino" + t.v()
 				p := recDesc{"PATH", fmt.Sprintf("item=0 name=%s inode=%s dev=%s mode=0100644 ouid=%s ogid=%s rdev=%s nametype=NORMAL", hx(nm), ino, t.v(), t.v(), t.v(), t.v())}
 				rs := []recDesc{syscallRec(t, nr, ""), {"CWD", "cwd=" + hx("/c/"+t.v()+r)}, p}
 				desc := fmt.Sprintf("syscall %d on a file named %q", nr, nm)
 				c.Begin(func() string { return desc })
-				c.Try("C09", func() {
+				c.Try(tryProp(), func() {
 					msgs, ok := parseAll(c, rs)
 					if !ok {
 						return
@@ -519,7 +567,10 @@ func c09Names(c *enumx.Ctx) {
 					if err != nil || pd["name"] != nm {
 						return // the parser's business (C12)
 					}
-					ev, err := aucoalesce.CoalesceMessages(msgs)
+					ev, err := coalesce(c, msgs)
+					if oracleC15 {
+						return
+					}
 					if err != nil || ev == nil {
 						c.Report("C09 coalesce-error", fmt.Sprintf("%s: (%v, %v)", desc, ev, err), nil)
 						return
@@ -542,7 +593,134 @@ func c09Names(c *enumx.Ctx) {
 	c.Sample("open of a file whose name is Latin-1 (hex-encoded by the kernel) => File.Path holds the same bytes")
 }
 
+// (g) EVERY syscall number of the native table x arguments that look like modes / flags / ids (hex) x
+// success yes/no, on an event with CWD and one PATH record: whatever the syscall is and whatever its
+// arguments say, the File block (when present) mirrors the PATH record - mode bits included.
+func c09Syscalls(c *enumx.Ctx) {
+	var nrs []int
+	for nr := range auparse.AuditSyscalls["x86_64"] {
+		nrs = append(nrs, nr)
+	}
+	sort.Ints(nrs)
+	argSets := [][4]string{{"1ed", "1ed", "1ed", "1ed"}, {"ffffff9c", "7ffd1234", "1a4", "0"}, {"3", "1ff", "8000", "241"}, {"0", "0", "0", "0"}}
+	for _, nr := range nrs {
+		for ai, args := range argSets {
+			for _, succ := range []string{"yes", "no"} {
+				for _, mode := range []string{"0100644", "040711"} {
+					if !c.Mine() {
+						continue
+					}
+					t := &tagger{numeric: ai%2 == 1}
+					ino := "ino" + t.v()
+					exit := "0"
+					if succ == "no" {
+						exit = "-13"
+					}
+					sc := recDesc{"SYSCALL", fmt.Sprintf("arch=c000003e syscall=%d success=%s exit=%s a0=%s a1=%s a2=%s a3=%s items=1 ppid=%s pid=%s auid=%s uid=%s gid=%s euid=%s suid=%s fsuid=%s egid=%s sgid=%s fsgid=%s tty=%s ses=%s comm=\"%s\" exe=\"/bin/%s\" key=\"%s\"",
+						nr, succ, exit, args[0], args[1], args[2], args[3], t.v(), t.v(), t.v(), t.v(), t.v(), t.v(), t.v(), t.v(), t.v(), t.v(), t.v(), t.v(), t.v(), t.v(), t.v(), t.v())}
+					p := pathRec(t, 0, "NORMAL", mode, ino)
+					rs := []recDesc{sc, {"CWD", "cwd=\"/c/" + t.v() + "\""}, p}
+					desc := fmt.Sprintf("syscall %d (%s) success=%s args %v on a PATH with mode %s", nr, auparse.AuditSyscalls["x86_64"][nr], succ, args, mode)
+					c.Begin(func() string { return desc })
+					c.Try(tryProp(), func() {
+						msgs, ok := parseAll(c, rs)
+						if !ok {
+							return
+						}
+						ev, err := coalesce(c, msgs)
+						if oracleC15 {
+							return
+						}
+						if err != nil || ev == nil {
+							c.Report("C09 coalesce-error", fmt.Sprintf("%s: (%v, %v)", desc, ev, err), nil)
+							return
+						}
+						good := identity(c, "C09", msgs[0], ev, desc) && containment(c, "C09", rs, ev, desc)
+						if ev.File != nil {
+							pd, _ := msgs[2].Data()
+							mo, _ := strconv.ParseUint(mode, 8, 64)
+							wantMode := fmt.Sprintf("%04o", mo&0o7777)
+							if ev.File.Inode != ino || ev.File.Path != pd["name"] || ev.File.Device != pd["rdev"] || ev.File.UID != pd["ouid"] || ev.File.GID != pd["ogid"] || ev.File.Mode != wantMode {
+								c.Report("C09 file-block-mirror", fmt.Sprintf("%s: File=%+v does not mirror the PATH record %v (mode bits %s)", desc, *ev.File, pd, wantMode), nil)
+								good = false
+							}
+						}
+						if good {
+							c.Nontrivial()
+						}
+					})
+				}
+			}
+		}
+	}
+	c.Sample("chmod(a1=1ed) success=yes on a PATH with mode 0100644 => File.Mode stays 0644 (it mirrors the record)")
+}
+
+// oracleC15: the same enumerations decide C15's per-call clauses instead of C09's: the input
+// messages report the same before and after, coalescing the same messages again gives an equal
+// event, and so does a fresh parse of the same lines.
+var oracleC15 bool
+
+func tryProp() string {
+	if oracleC15 {
+		return "C15"
+	}
+	return "C09"
+}
+
+func coalesce(c *enumx.Ctx, msgs []*auparse.AuditMessage) (*aucoalesce.Event, error) {
+	if !oracleC15 {
+		return aucoalesce.CoalesceMessages(msgs)
+	}
+	var before []string
+	var lines []string
+	for _, m := range msgs {
+		before = append(before, msgSnap(m))
+		lines = append(lines, "type="+m.RecordType.String()+" msg="+m.RawData)
+	}
+	e1, err1 := aucoalesce.CoalesceMessages(msgs)
+	good := true
+	for i, m := range msgs {
+		if s := msgSnap(m); s != before[i] {
+			c.Report("C15 input-mutated:"+m.RecordType.String(), fmt.Sprintf("after CoalesceMessages the %s message (record %d of %d) reports\n  %s\nbefore it reported\n  %s\ngroup: %q", m.RecordType, i, len(msgs), s, before[i], lines), nil)
+			good = false
+			break
+		}
+	}
+	s1 := evSnap(e1, err1)
+	e2, err2 := aucoalesce.CoalesceMessages(msgs)
+	if s2 := evSnap(e2, err2); s2 != s1 {
+		c.Report("C15 recoalesce-differs", fmt.Sprintf("coalescing the same messages twice gives\n  %s\nthen\n  %s\ngroup: %q", s1, s2, lines), nil)
+		good = false
+	}
+	var fresh []*auparse.AuditMessage
+	for _, l := range lines {
+		if m, err := auparse.ParseLogLine(l); err == nil {
+			fresh = append(fresh, m)
+		}
+	}
+	if len(fresh) == len(msgs) && len(msgs) > 0 {
+		e3, err3 := aucoalesce.CoalesceMessages(fresh)
+		if s3 := evSnap(e3, err3); s3 != s1 {
+			c.Report("C15 recoalesce-differs", fmt.Sprintf("coalescing a fresh parse of the same lines gives\n  %s\nthe first coalesce gave\n  %s\ngroup: %q", s3, s1, lines), nil)
+			good = false
+		}
+	}
+	if good {
+		c.Nontrivial()
+	}
+	return e1, err1
+}
+
 func init() {
+	for _, g := range []string{"c09-modes", "c09-groups", "c09-singles", "c09-repeats", "c09-names", "c09-syscalls"} {
+		g := g
+		gens["c15:"+g] = func(c *enumx.Ctx) {
+			oracleC15 = true
+			gens[g](c)
+		}
+	}
+	gens["c09-syscalls"] = c09Syscalls
 	gens["c09-repeats"] = c09Repeats
 	gens["c09-names"] = c09Names
 	gens["c09-modes"] = c09Modes
